@@ -28,7 +28,7 @@ TTML_SAMPLE = """<?xml version="1.0" encoding="UTF-8"?>
   <body>
     <div>
       <p region="bottom" begin="1s" end="3s" style="s2">First <span style="s1">cue</span> of the sample</p>
-      <p region="top" begin="2.5s" end="4s">Second cue<br/>on two lines</p>
+      <p region="top" begin="2.5s" end="4s">Second cue<br/>on <span tts:color="RGB(0,255,0)">two</span> lines</p>
       <p region="bottom" begin="5s" end="6.5s"><span tts:fontWeight="bold">Third</span> &amp; last <span tts:textDecoration="underline">cue</span>
         <set begin="0.5s" end="1s" tts:color="red"/></p>
     </div>
@@ -47,7 +47,7 @@ on two lines
 
 3
 00:01:00,000 --> 00:01:01,000
-<font color="#ff0000">Red</font> text
+<font color="#ff0000">Red</font> text <font color="rgb(0,255,0)">green</font>
 
 """
 
